@@ -251,6 +251,7 @@ def _havoc(net, mode):
                     hm[("Tout", name)] = (bpit[b, TOUTINIT], "Tout%s[%s]" % (tag, name))
                     bpit[b, TOUTINIT] = real("Tout%s[%s]" % (tag, name))
     CTX.last_names = (nn, bn)
+    CTX.cur_net = net
 
 
 def _nr_wrapper(net, funct, mode, solver_vars, tols, pit_names, iter_name):
@@ -270,6 +271,24 @@ def _nr_wrapper(net, funct, mode, solver_vars, tols, pit_names, iter_name):
         s.setdefault("node_names", list(nn))
         s.setdefault("branch_names", list(bn))
     return r
+
+
+def _bsm_wrapper(net, branch_pit, node_pit, heat_mode):
+    """records which unknown belongs to which column of the system that is being assembled"""
+    from pandapipes.pf.pipeflow_setup import get_lookup
+    m = "heat_transfer" if heat_mode else "hydraulics"
+    try:
+        nmask = get_lookup(net, "node", "active_" + m)
+        bmask = get_lookup(net, "branch", "active_" + m)
+        nn = [x for x, a in zip(_pit_row_names(net, "node", net["_pit"]["node"]), nmask) if a]
+        bn = [x for x, a in zip(_pit_row_names(net, "branch", net["_pit"]["branch"]), bmask) if a]
+        if len(nn) == len(node_pit) and len(bn) == len(branch_pit):
+            CTX.last_names = (nn, bn)
+    except Exception:
+        pass
+    CTX.cur_heat = bool(heat_mode)
+    CTX.cur_net = net
+    return _ORIG["build_system_matrix"](net, branch_pit, node_pit, heat_mode)
 
 
 def _fin_stub(net, niter, residual_norm, nonlinear_method, errors, tols, tol_res, vals_old,
@@ -303,6 +322,9 @@ def install(numba_pyfunc=False, force_verdict=True, symbolic_constants=True):
         _ORIG["finalize_iteration"] = pf.finalize_iteration
     pf.newton_raphson = _nr_wrapper
     pf.finalize_iteration = _fin_stub if force_verdict else _ORIG["finalize_iteration"]
+    if "build_system_matrix" not in _ORIG:
+        _ORIG["build_system_matrix"] = pf.build_system_matrix
+    pf.build_system_matrix = _bsm_wrapper
     CTX.fixed = set()
     CTX.ident = {}
     CTX.sym_tag = ""
@@ -315,6 +337,8 @@ def uninstall():
     if "newton_raphson" in _ORIG:
         pf.newton_raphson = _ORIG["newton_raphson"]
         pf.finalize_iteration = _ORIG["finalize_iteration"]
+    if "build_system_matrix" in _ORIG:
+        pf.build_system_matrix = _ORIG["build_system_matrix"]
     stubs.uninstall()
 
 
@@ -451,13 +475,15 @@ def concrete_twin_run(spec, env, pipeflow_kwargs, is_gas, build_kwargs=None):
         CTX.fixed, CTX.ident, CTX.sym_tag = fixed, ident, tag
 
 
-def validate_against_impl(spec, p, pipeflow_kwargs, is_gas, rtol=1e-7, build_kwargs=None):
+def validate_against_impl(spec, p, pipeflow_kwargs, is_gas, rtol=1e-6, build_kwargs=None):
     """compare every res_* cell: symbolic term evaluated at the witness vs. float run of the real
     code at the witness.  Returns (cells compared, list of mismatches)."""
     from .evalterm import evaluate, EvalError
     import math
     if p.witness is None or p.exc is not None:
         return 0, []
+    if "__singular__" in p.witness:
+        return 0, []      # the system is singular at this witness: the float twin has no defined answer
     env = p.witness
     funcs = witness_funcs()
     snet = p.value
